@@ -136,9 +136,10 @@ func H08_Map() {
 			} else if r.frag {
 				known := false
 				for _, p := range r.parts {
-					known = known || (p.off == off)
+					// each distinct fragment once: a fragment is already there if a stored one at the same offset
+					// carries at least as much data (fragments of different fragmentations may share an offset)
+					known = known || (p.off == off && p.n >= n)
 				}
-				// parts are de-duplicated by (offset, total length)
 				if !known {
 					r.parts = append(r.parts, refPart{off, n, enc(b)})
 				}
